@@ -41,6 +41,32 @@ type Case struct {
 	N    string `json:"n,omitempty"` // decimal integer
 	S    string `json:"s,omitempty"`
 	D    int64  `json:"d,omitempty"`
+	// Pre != 0: the other exported conversions of the package (Float64ToBigInt,
+	// Uint64ToBigInt, BigIntToStrWithoutDot, BigIntBase10toN, BigIntBytesToStr) are
+	// called with values derived from Pre on the same goroutine right before the
+	// case, as the node does between two amount conversions (rewards, fees).
+	Pre float64 `json:"pre,omitempty"`
+	// Shape of the raw Ethereum transaction: "" = call with data, "transfer" = no
+	// data, "create" = contract creation (no recipient) with data, "create-empty".
+	Shape string `json:"shape,omitempty"`
+}
+
+// noise exercises every other exported conversion of src/utility/data_convert.go.
+func noise(pre float64) {
+	if pre == 0 {
+		return
+	}
+	a := pre
+	if a < 0 {
+		a = -a
+	}
+	x := utility.Float64ToBigInt(pre)
+	utility.Uint64ToBigInt(uint64(a))
+	if x != nil {
+		utility.BigIntToStrWithoutDot(x)
+		utility.BigIntBytesToStr(new(big.Int).Abs(x).Bytes())
+		utility.BigIntBase10toN(new(big.Int).Abs(x), 16)
+	}
 }
 
 // oracleParse: exact value of a decimal string with <= 18 fractional digits times 1e18.
@@ -117,6 +143,7 @@ func runCase(r *mon.Run, c Case) {
 	case "int":
 		n, _ := new(big.Int).SetString(c.N, 10)
 		r.Guard("C18:int", c, func() {
+			noise(c.Pre)
 			s := utility.BigIntToStr(n)
 			back, err := utility.StrToBigInt(s)
 			r.Count("roundtrip_checks", 1)
@@ -157,6 +184,7 @@ func runCase(r *mon.Run, c Case) {
 			return
 		}
 		r.Guard("C18:str", c, func() {
+			noise(c.Pre)
 			got, err := utility.StrToBigInt(c.S)
 			r.Count("parse_checks", 1)
 			if err != nil || got == nil || got.Cmp(want) != 0 {
@@ -167,7 +195,19 @@ func runCase(r *mon.Run, c Case) {
 		n, _ := new(big.Int).SetString(c.N, 10)
 		r.Guard("C18:eth", c, func() {
 			to := common.HexToAddress("0x00000000000000000000000000000000000000aa")
-			raw := eth_tx.NewTransaction(uint64(c.D), to, n, 100000, big.NewInt(1000000000), []byte{1, 2, 3})
+			var raw *eth_tx.Transaction
+			switch c.Shape {
+			case "transfer":
+				raw = eth_tx.NewTransaction(uint64(c.D), to, n, 100000, big.NewInt(1000000000), nil)
+			case "create":
+				raw = eth_tx.NewContractCreation(uint64(c.D), n, 100000, big.NewInt(1000000000), []byte{0x60, 0x00, 0x60, 0x00, 0xf3})
+			case "create-empty":
+				raw = eth_tx.NewContractCreation(uint64(c.D), n, 100000, big.NewInt(1000000000), nil)
+			default:
+				raw = eth_tx.NewTransaction(uint64(c.D), to, n, 100000, big.NewInt(1000000000), []byte{1, 2, 3})
+			}
+			noise(c.Pre)
+			r.Count("eth_shape_"+c.Shape, 1)
 			signed, err := eth_tx.SignTx(raw, eenv.signer, eenv.key)
 			if err != nil {
 				panic(err)
@@ -205,6 +245,12 @@ func runCase(r *mon.Run, c Case) {
 	}
 }
 
+// preFor: a deterministic non-zero float for the "other conversions first" variant.
+func preFor(i int) float64 {
+	v := []float64{0.1, 1.5, 2.675, 1e-7, 123456.789, 1e18 / 3, 0.3, 7e20, -0.7, 5e-19}[i%10]
+	return v * float64(1+i%13)
+}
+
 func nontrivialInt(n *big.Int) bool {
 	a := new(big.Int).Abs(n)
 	return a.Cmp(e18) >= 0 || new(big.Int).Mod(a, e18).Sign() != 0
@@ -219,7 +265,7 @@ func main() {
 			os.Exit(2)
 		}
 		var w struct {
-			Case *Case `json:"case"`
+			Case *Case  `json:"case"`
 			Kind string `json:"kind"`
 		}
 		var c Case
@@ -345,12 +391,18 @@ func main() {
 			for d := int64(0); d <= 18; d++ {
 				runCase(r, Case{Kind: "int", N: n.String(), D: d})
 			}
+			runCase(r, Case{Kind: "int", N: n.String(), D: 18, Pre: preFor(i)})
 		} else {
 			d := int64(18)
 			if i%3 == 0 {
 				d = int64(i % 19)
 			}
-			runCase(r, Case{Kind: "int", N: n.String(), D: d})
+			c := Case{Kind: "int", N: n.String(), D: d}
+			if i%2 == 0 {
+				c.Pre = preFor(i)
+				r.Count("cases_after_other_conversions", 1)
+			}
+			runCase(r, c)
 		}
 		if nontrivialInt(n) {
 			r.Count("nontrivial_ints", 1)
@@ -358,7 +410,12 @@ func main() {
 		}
 	})
 	mon.Parallel(len(strs), workers, func(i int) {
-		runCase(r, Case{Kind: "str", S: strs[i]})
+		c := Case{Kind: "str", S: strs[i]}
+		if i%2 == 1 {
+			c.Pre = preFor(i)
+			r.Count("cases_after_other_conversions", 1)
+		}
+		runCase(r, c)
 		r.Distinct("str", []byte(strs[i]))
 	})
 	_ = nontriv
@@ -376,7 +433,11 @@ func main() {
 		ethVals = append(ethVals, new(big.Int).Abs(ints[nb+rng.Intn(nRand)]))
 	}
 	for i, n := range ethVals {
-		runCase(r, Case{Kind: "eth", N: n.String(), D: int64(i)})
+		c := Case{Kind: "eth", N: n.String(), D: int64(i), Shape: []string{"", "transfer", "create", "create-empty"}[i%4]}
+		if i%3 == 0 {
+			c.Pre = preFor(i)
+		}
+		runCase(r, c)
 		r.DistinctHash("eth", hash64(n.Bytes(), 1))
 	}
 	r.Sample(Case{Kind: "int", N: ints[nb+1].String(), D: 18})
